@@ -788,7 +788,12 @@ class TupimageTerminal:
             size = self._upload(
                 inst, check_response=check_response, upload_method=upload_method
             )
-            self.id_manager.mark_uploaded(inst.id, self._terminal_id, size=size)
+            self.id_manager.mark_uploaded(
+                inst.id,
+                self._terminal_id,
+                size=size,
+                description=inst.get_description(),
+            )
         return inst
 
     def get_supported_formats(self) -> List[str]:
